@@ -21,7 +21,8 @@ HASHES = ["sha256", "sha512", "sha384", "sha3_256", "blake2b", "sha1", "sha224",
           "sha3_384", "sha3_512", "blake2s"]
 REQUIRED_LABELS = {t: ["xmd:hash=sha512", "xmd:hash=sha3_256", "xmd:hash=blake2b", "xmd:ell=255",
                        "xmd:must_raise:ell", "xmd:must_raise:dst", "xmd:dst=255", "xmd:dst=0",
-                       "h2f:FQ2", "h2f:FQ", "xmd:ell>=3"] for t in ("quick", "thorough")}
+                       "h2f:FQ2", "h2f:FQ", "xmd:ell>=3"] + ["xmd:blocks:" + k for k in
+                      ("lead_zero_both", "trail_zero_both", "lead_equal", "trail_equal")] for t in ("quick", "thorough")}
 
 
 def selfcheck():
@@ -31,6 +32,9 @@ def selfcheck():
     for msg, n, want in vectors.XMD_DRAFT09:
         if h2c.expand_message_xmd(msg, vectors.XMD_DRAFT09_DST, n, "sha256") != want:
             raise HarnessError("expand_message_xmd model fails draft-09 vectors")
+
+
+_blocks, block_class, search_blocks, BLOCK_KINDS = h2c.xmd_blocks, h2c.block_class, h2c.search_blocks, h2c.BLOCK_KINDS
 
 
 def o_xmd(ctx, case):
@@ -90,6 +94,11 @@ def o_xmd(ctx, case):
         ctx.label("xmd:n=0")
     if len(dst) in (0, 1, 254, 255):
         ctx.label(f"xmd:dst={len(dst)}"); nt_ = True
+    if ell >= 2 and len(msg) < 5000:
+        for k in block_class(*_blocks(msg, dst, n, name)):
+            ctx.label("xmd:blocks:" + k)
+            if k.endswith("zero_both"):
+                nt_ = True
     bs = H().block_size
     if len(msg) in (bs - 1, bs, bs + 1):
         ctx.label("xmd:msg~block")
@@ -155,6 +164,19 @@ def s_xmd(draw):
 
 
 @st.composite
+def s_xmd_blocks(draw):
+    """Requests whose block sequence is in one of BLOCK_KINDS (found by search in the model)."""
+    name = draw(st.one_of(st.just("sha256"), st.sampled_from(HASHES)))
+    b = getattr(hashlib, name)().digest_size
+    ell = draw(st.sampled_from([2, 3, 8, 100, 200, 254, 255]))
+    kind = draw(st.sampled_from(BLOCK_KINDS))
+    n = ell * b - draw(st.sampled_from([0, 0, 1, b - 1]))
+    dst = unhx(draw(s_dst()))
+    msg = search_blocks(draw(st.binary(max_size=40)), dst, n, name, kind)
+    return {"msg": hx(msg), "dst": hx(dst), "n": n, "hash": name, "ctor": 0}
+
+
+@st.composite
 def s_xmd_bad(draw):
     name = draw(st.sampled_from(HASHES))
     b = getattr(hashlib, name)().digest_size
@@ -186,6 +208,7 @@ def t_xmd(ctx, shard, n):
                 for dl in (0, 255, 256):
                     ex.append({"msg": "616263", "dst": "41" * dl, "n": k, "hash": name})
     drive(ctx, f"xmd{shard}", s_xmd(), lambda c: o_xmd(ctx, c), n, ex)
+    drive(ctx, f"xmdblocks{shard}", s_xmd_blocks(), lambda c: o_xmd(ctx, c), max(12, n // 30))
     drive(ctx, f"xmdbad{shard}", s_xmd_bad(), lambda c: o_xmd(ctx, c), max(20, n // 10))
     drive(ctx, f"h2f{shard}", s_h2f(), lambda c: o_h2f(ctx, c), n // 3)
 
